@@ -21,6 +21,10 @@ import (
 // checked directly: a variant the follower is willing to accept has the same stored bytes and the same effect as the
 // original (so the follower accepts the producer's momentum and ends in the reference state); nobody without the
 // signing key can make the follower hold a second acceptable variant.
+//
+// "Covered by the hash" is decided by the harness's OWN pre-image everywhere in this stream (ownABHash / ownMomentumHash,
+// s_variants_covered.go), never by the repository's ComputeHash. The second half of the stream (coveredHistory) is the
+// complementary class: a COVERED field altered while the hash stays.
 // ---------------------------------------------------------------------------------------------------
 
 type variantKind struct {
@@ -114,6 +118,11 @@ func init() {
 	register("variants", func(c *Ctx) {
 		for i := 0; i < c.N; i++ {
 			variantsHistory(c, i)
+		}
+		// the complementary class (s_variants_covered.go): a field the hash DOES cover altered, hash / changes hash / key /
+		// signature kept. After the histories above, so that their sequence of random draws is what it was.
+		for i := 0; i < c.N; i++ {
+			coveredHistory(c, i)
 		}
 	})
 }
@@ -215,7 +224,7 @@ func variantsHistory(c *Ctx, id int) {
 						c.Hit("uncovered-account-block-field-" + fn)
 					}
 					if !containsStr(abFields, "Signature") || !containsStr(abFields, "PublicKey") {
-						fail("the experiment on ComputeHash says signature / public key are covered by the hash: %v", abFields)
+						fail("the experiment on the pre-image says signature / public key are covered by the hash: %v", abFields)
 					}
 				}
 				noteUintDonors(b, abFields)
@@ -289,7 +298,7 @@ func variantsHistory(c *Ctx, id int) {
 						c.Hit("uncovered-momentum-field-" + fn)
 					}
 					if !containsStr(mFields, "Signature") || !containsStr(mFields, "PublicKey") {
-						fail("the experiment on Momentum.ComputeHash says signature / public key are covered by the hash: %v", mFields)
+						fail("the experiment on the momentum pre-image says signature / public key are covered by the hash: %v", mFields)
 					}
 				}
 				fvs := fieldVariantsOf(m, mFields)
@@ -485,7 +494,7 @@ func variantsHistory(c *Ctx, id int) {
 	}
 	// variants of blocks the follower verified and then lost in a reorganisation (s_variants_state.go)
 	if delivered == a.Height() {
-		if !variantsAfterReorg(c, a, f, ref, abFields, fail) {
+		if !variantsAfterReorg(c, a, f, ref, abFields, fail, nil, 0) {
 			return
 		}
 	}
